@@ -184,3 +184,41 @@ MUTANTS += [
          old="        z1 = np.cosh(self.z2) * np.sin(self.z1)\n        z2 = np.sinh(self.z2) * np.cos(self.z1)",
          new="        z1 = np.sin(self.z1)\n        z2 = np.sinh(self.z2) * np.cos(self.z1)"),
 ]
+
+MUTANTS += [
+    dict(id='c11-no-complex-fx-assert', props=['C11'], file=CORE,
+         old="        _assert(not np.any(np.iscomplex(f_x)),\n                msg + ' But the function given is complex valued!')", new="        pass"),
+    dict(id='c11-num-steps-le', props=['C11', 'C10'], file=FD,
+         old="        _assert(n_r < num_steps, 'num_steps", new="        _assert(n_r <= num_steps, 'num_steps"),
+    dict(id='c11-vstack-size-assert', props=['C11', 'C08'], file=FD,
+         old="        h = np.vstack([np.ravel(one * step) for step in steps])\n        _assert(f_del.size == h.size, 'fun did not return data of correct '\n                'size (it must be vectorized)')\n        return f_del, h, original_shape\n\n    def apply",
+         new="        h = np.vstack([np.ravel(one * step) for step in steps])\n        return f_del, h, original_shape\n\n    def apply"),
+    dict(id='c11-undo-f4', props=['C11'], file=CORE,
+         old="        if self.method in ['complex', 'multicomplex']:\n            self._raise_error_if_any_is_complex(x_i, fxi)\n", new=""),
+    dict(id='c11-undo-f13', props=['C11'], file=FB,
+         old="    _assert(size <= num_x, 'len(x) must be at least 2 * (n // 2 + m) + 2')\n", new=""),
+    dict(id='c11-residue-assert', props=['C11'], file=LIM,
+         old="        _assert(pole_order < order, 'order must be at least pole_order+1.')", new="        _assert(pole_order <= order, 'order must be at least pole_order+1.')"),
+    dict(id='c11-multicomplex-n3', props=['C11'], file=FD,
+         old="            _assert(self.n <= 2, 'Multicomplex method only support first '", new="            _assert(self.n <= 3, 'Multicomplex method only support first '"),
+    dict(id='c11-directionaldiff-typeerror', props=['C11'], file=CORE,
+         old="    _assert(x0.size == vec.size, 'vec and x0 must be the same shapes')", new="    assert x0.size == vec.size, 'vec and x0 must be the same shapes'"),
+    dict(id='c11-path-startswith', props=['C11'], file=LIM,
+         old="        _assert(self.path in ['spiral', 'radial'], 'Invalid Path: {}'.format(str(self.path)))",
+         new="        _assert(self.path[:6] in ['spiral', 'radial'], 'Invalid Path: {}'.format(str(self.path)))"),
+]
+
+MUTANTS += [
+    dict(id='c19-central-is-2point', props=['C19'], file=NS,
+         old="method = dict(complex='cs', central='3-point', forward='2-point',", new="method = dict(complex='cs', central='2-point', forward='2-point',"),
+    dict(id='c19-bounds-dropped', props=['C19'], file=NS,
+         old="kwargs=kwds, bounds=self.bounds, sparsity=self.sparsity)", new="kwargs=kwds, sparsity=self.sparsity)"),
+    dict(id='c19-kwds-dropped', props=['C19'], file=NS,
+         old="options = dict(method=method, rel_step=self.step, args=args,\n                       kwargs=kwds,", new="options = dict(method=method, rel_step=self.step, args=args,\n                       kwargs={},"),
+    dict(id='c19-gradient-no-squeeze', props=['C19'], file=NS,
+         old="                                              *args, **kwds).squeeze()", new="                                              *args, **kwds)"),
+    dict(id='c19-complex-is-forward', props=['C19'], file=NS,
+         old="method = dict(complex='cs',", new="method = dict(complex='2-point',"),
+    dict(id='c19-step-ignored', props=['C19'], file=NS,
+         old="rel_step=self.step, args=args,", new="rel_step=None, args=args,"),
+]
